@@ -162,7 +162,7 @@ func (env *specEnv) eval(e *SExpr) sval {
 		if l.t.Sort != smt.Int || r.t.Sort != smt.Int {
 			if l.t.Sort == StrSort && r.t.Sort == StrSort {
 				// Go string comparison: the uninterpreted strict order str_lt (as in code)
-				fv.c.DeclareFun("str_lt", []string{StrSort, StrSort}, smt.Bool)
+				fv.declareStrLt()
 				switch e.Op {
 				case "lt":
 					return boolVal(smt.App(smt.Bool, "str_lt", l.t, r.t))
